@@ -31,7 +31,10 @@ def type_of(c):
     if g == 'occ':
         return {'k': 'prim', 'p': 'Integer', 'min': c['mino'], 'max': 'inf' if c['maxo'] == 99 else c['maxo']}
     if g == 'nil':
-        return {'k': 'prim', 'p': c['ty'], 'nillable': c['nillable'], 'min': c['mino']}
+        t = {'k': 'prim', 'p': c['ty'], 'nillable': c['nillable'], 'min': c['mino']}
+        if c.get('dflt'):
+            t['default'] = 9 if c['ty'] == 'Integer' else 'dflt'
+        return t
     if g == 'date':
         from pytz import utc
         b = BOUND.replace(tzinfo=utc)
